@@ -454,6 +454,32 @@ class Problem:
                 best = (env, abs(d), scale)
         if best is None:
             raise Inconclusive("no random point inside the domain of definition found")
+        if groups and (all_zero or best[1] <= 1e-4 * best[2]):
+            # the normal form is not identically zero although the difference is (almost) invisible at ordinary
+            # parameter values: look further out (rare input regions, e.g. a branch cut or a regulariser) for a
+            # parameter point where the two sides differ visibly
+            if not hasattr(self, "_wide"):
+                self._wide = []
+            for j in range(24):
+                if j >= len(self._wide):
+                    saved = self.env_range
+                    self.env_range = saved * (2.0 + (j % 3))
+                    try:
+                        self._wide.append((self._random_env(rnd, allvars), {}, {}, ([], {})))
+                    finally:
+                        self.env_range = saved
+                env, mm, vm, rc = self._wide[j]
+                try:
+                    fa, ma = S.evalf_mag(conv.canon(g.a), env, mm, vm)
+                    fb, mb = S.evalf_mag(conv.canon(g.b), env, mm, vm) if g.b is not None else (0.0, 0.0)
+                except (ValueError, ZeroDivisionError, OverflowError):
+                    continue
+                d = abs(fa - fb)
+                scale = ma + mb + 1e-300
+                if d > 1e-9 * scale:
+                    all_zero = False
+                if d / scale > best[1] / best[2]:
+                    best = (env, d, scale)
         return best[0], best[1], best[2], all_zero
 
     def _solve_eq(self, g, conv, zr, rnd, allvars, r):
